@@ -1,4 +1,5 @@
 import XcpProofs.FsDefs
+import XcpProofs.FsFrame
 /-! # C08 — `--no-clobber` never alters anything that already exists in the destination
 
 Model slice: the walker's existence probe (`lstat` after the `fix:` commit) and `execOps`.
@@ -14,17 +15,26 @@ open Xcp
 /-- one operation executed on a target that does not exist alters no existing entry -/
 theorem fresh_op_preserves (fs fs' : Fs) (c : Cfg) (op : Op)
     (hf : ∀ t, opTarget op = some t → fs.lexists t = false) (h : execOp fs c op = some fs') :
-    Preserved fs.root fs'.root := by
-  sorry
+    Preserved fs.root fs'.root :=
+  execOp_fresh_preserved fs fs' c op hf h
 
-theorem preserved_trans (a b c : Node) (h1 : Preserved a b) (h2 : Preserved b c) : Preserved a c := by
-  sorry
+theorem preserved_trans (a b c : Node) (h1 : Preserved a b) (h2 : Preserved b c) : Preserved a c :=
+  Preserved.trans h1 h2
 
 /-- a whole run (and every prefix of it: the statement is for all op lists) of fresh operations alters no
 entry that existed before: not modified, replaced, truncated, renamed or removed -/
 theorem fresh_run_preserves (fs : Fs) (c : Cfg) (ops : List Op) (h : FreshRun fs c ops) :
     Preserved fs.root (execOps fs c ops).fs.root := by
-  sorry
+  induction ops generalizing fs with
+  | nil => exact Preserved.refl _
+  | cons op r ih =>
+    obtain ⟨hf, hr⟩ := h
+    simp only [execOps]
+    cases he : execOp fs c op with
+    | none => exact Preserved.refl _
+    | some fs' =>
+      rw [he] at hr
+      exact preserved_trans _ _ _ (fresh_op_preserves fs fs' c op hf he) (ih fs' hr)
 
 /-- the walker, with no-clobber set, emits NO operation for an entry whose target exists — be it a file, a
 directory, a special file, or a live or dangling symbolic link — but stops the walk (or the entry was
@@ -32,17 +42,38 @@ excluded by .gitignore) -/
 theorem collision_emits_no_operation (fs : Fs) (c : Cfg) (hn : c.noClobber = true) (gi : Ignore) (src tb : RPath)
     (fuel : Nat) (rel : List Name) (anc : List (List Name)) (hx : fs.lexists (relJoin tb rel) = true) :
     walkEntry fs c gi src tb (fuel + 1) rel anc = [.fail] ∨ walkEntry fs c gi src tb (fuel + 1) rel anc = [] := by
-  sorry
+  suffices hP : ∀ P : List Op → Prop, P [.fail] → P [] → P (walkEntry fs c gi src tb (fuel + 1) rel anc) from
+    hP (fun l => l = [.fail] ∨ l = []) (.inl rfl) (.inr rfl)
+  intro P h1 h2
+  simp only [walkEntry, hn, hx, Bool.and_self, if_true]
+  repeat' split
+  all_goals first | exact h1 | exact h2
 
 /-- a stopped walk makes the run end with a non-zero status -/
 theorem fail_in_ops_exits_nonzero (fs : Fs) (c : Cfg) (ops : List Op) (h : Op.fail ∈ ops) :
     (execOps fs c ops).exit = .err := by
-  sorry
+  induction ops generalizing fs with
+  | nil => cases h
+  | cons op r ih =>
+    simp only [execOps]
+    cases he : execOp fs c op with
+    | none => rfl
+    | some fs' =>
+      cases h with
+      | head => simp [execOp] at he
+      | tail _ hm => exact ih fs' hm
 
 /-- a failed operation changes nothing: `execOps` stops at the state before it -/
 theorem failed_run_is_prefix (fs : Fs) (c : Cfg) (ops : List Op) :
     ∃ done, done <+: ops ∧ (execOps fs c ops).fs = (execOps fs c done).fs ∧ (execOps fs c done).exit = .ok := by
-  sorry
+  induction ops generalizing fs with
+  | nil => exact ⟨[], List.prefix_refl _, rfl, rfl⟩
+  | cons op r ih =>
+    cases he : execOp fs c op with
+    | none => exact ⟨[], List.nil_prefix, by simp [execOps, he], rfl⟩
+    | some fs' =>
+      obtain ⟨done, hd, h1, h2⟩ := ih fs'
+      exact ⟨op :: done, List.cons_prefix_cons.2 ⟨rfl, hd⟩, by simp [execOps, he, h1], by simp [execOps, he, h2]⟩
 
 /-- Non-vacuity: a dangling link at the target is an existing entry (the defect repaired by the `fix:` commit
 on the no-clobber probe: `exists()` followed the link and reported "absent"). -/
